@@ -269,7 +269,7 @@ func ruleR9(p *Prog) []Ob {
 			if len(bad) > 0 {
 				ob.Status, ob.Msg, ob.Path = Violated, "the "+ver+" record decoder does not read the documented layout", bad
 			} else {
-				ob.Status, ob.Msg = Discharged, "fixed fields, key/value/trailer positions, CRC coverage and the next position match the documented " + ver + " layout"
+				ob.Status, ob.Msg = Discharged, "fixed fields, key/value/trailer positions, CRC coverage and the next position match the documented "+ver+" layout"
 			}
 			obs = append(obs, ob)
 		}
